@@ -122,7 +122,7 @@ class AnmCases:
         masks = [("cmp", "!=", colA, ("const", 0)), ("method", colA, "astype", (("extref", "bool"),), ()),
                  # index lists in increasing order select the same columns in the same order as the boolean mask
                  ("ext", "numpy.flatnonzero", (colA,), ()), ("sub", ("ext", "numpy.nonzero", (colA,), ()), ("const", 0)),
-                 ("sub", ("ext", "numpy.where", (("cmp", "!=", colA, ("const", 0)),), ()), ("const", 0)),
+                 ("sub", ("ext", "numpy.where", (("cmp", "!=", colA, ("const", 0)),), ()), ("const", 0)), ("sub", ("ext", "numpy.where", (colA,), ()), ("const", 0)),
                  ("ext", "numpy.flatnonzero", (("cmp", "!=", colA, ("const", 0)),), ())]
         pa_sorted = ("ext", "sorted", (("call", U + "pa", (self.i, ("self", "A")), (("A", ("self", "A")), ("i", self.i))),), ())
         ok = a[0] == "sub" and a[1] == self.X and a[2][0] == "tuple" and len(a[2][1]) == 2 and a[2][1][0] == FULL and \
